@@ -218,6 +218,22 @@ fn nf_run(a: &[&str]) -> String {
 fn run(a: &[&str]) -> String {
     match a[0] {
         "nf_run" => nf_run(&a[1..]),
+        "read_memory" => match radix_engine::vm::wasm::verif_read_memory(
+            a[1].parse().unwrap(),
+            a[2].parse().unwrap(),
+            a[3].parse().unwrap(),
+        ) {
+            Ok(n) => format!("ok {}", n),
+            Err(()) => "err".to_string(),
+        },
+        "write_memory" => match radix_engine::vm::wasm::verif_write_memory(
+            a[1].parse().unwrap(),
+            a[2].parse().unwrap(),
+            a[3].parse().unwrap(),
+        ) {
+            Ok(()) => "ok 0".to_string(),
+            Err(()) => "err".to_string(),
+        },
         "fee_run" => fee_run(&a[1..]),
         "locks_run" => locks_run(&a[1..]),
         "pool1_owed" => rd(verif_one_resource_pool_calculate_amount_owed(
